@@ -562,7 +562,9 @@ def parse_fs(v, response):
 # ------------------------------------------------------------------ generators
 CH = [[0x41], [0x7f], [0x00], [0xc2, 0x80], [0xc3, 0xa4], [0xdf, 0xbf], [0xe0, 0xa0, 0x80], [0xe2, 0x82, 0xac],
       [0xed, 0x9f, 0xbf], [0xee, 0x80, 0x80], [0xef, 0xbf, 0xbf], [0xf0, 0x90, 0x80, 0x80], [0xf0, 0x9d, 0x84, 0x9e],
-      [0xf4, 0x8f, 0xbf, 0xbf], [0x2f], [0x2e]]
+      [0xf4, 0x8f, 0xbf, 0xbf], [0x2f], [0x2e],
+      # characters text codecs treat specially: U+FEFF (byte-order mark), U+2028, NEL, U+FFFE, space, LF
+      [0xef, 0xbb, 0xbf], [0xe2, 0x80, 0xa8], [0xc2, 0x85], [0xef, 0xbf, 0xbe], [0x20], [0x0a]]
 BADUTF = [[0xff], [0x80], [0xc0, 0x80], [0xc3], [0xe2, 0x82], [0xed, 0xa0, 0x80], [0xf4, 0x90, 0x80, 0x80],
           [0xe0, 0x80, 0x80], [0xf0, 0x80, 0x80, 0x80], [0xf5, 0x80, 0x80, 0x80], [0xc3, 0x28], [0x41, 0xfe]]
 LENS = [0, 1, 2, 3, 63, 64, 127, 128, 200, 250, 251, 252, 253, 254, 255]
@@ -575,6 +577,8 @@ def rbytes(rng, n):
 def rname(rng, n, ascii_only=False):
     """valid UTF-8 of exactly n octets"""
     out = []
+    if not ascii_only and n >= 3 and rng.random() < 0.08:
+        out = [0xef, 0xbb, 0xbf]          # a name that STARTS with U+FEFF (a "utf-8-sig" style decoder drops it)
     while len(out) < n:
         c = [rng.randrange(0x20, 0x7f)] if ascii_only or rng.random() < 0.5 else rng.choice(CH)
         if len(out) + len(c) <= n:
